@@ -166,6 +166,10 @@ Definition m_icmp (f : flavor) (neg : bool) (i : icmp_match) : list pmatch :=
 Definition m_opt {A} (o : option A) (f : A -> list pmatch) : list pmatch :=
   match o with None => [] | Some a => f a end.
 
+(* numeric ports left in the main rule: one multiport match for the whole list (it fits: <= 1 split) *)
+Definition ports_match (d : sod) (ports : list port_range) : list pmatch :=
+  match ports with [] => [] | _ => [m_ports d false ports] end.
+
 (* the part of the rule left after the blocks took what they need *)
 Definition main_match (c : cfg) (r : rule) : list pmatch :=
   let sp_blk := ports_in_block (r_src_ports r) (r_src_named_ports r) in
@@ -175,24 +179,24 @@ Definition main_match (c : cfg) (r : rule) : list pmatch :=
   let nsn := if neg_in_block (r_src_nets r) (r_not_src_nets r) then [] else r_not_src_nets r in
   let ndn := if neg_in_block (r_dst_nets r) (r_not_dst_nets r) then [] else r_not_dst_nets r in
   m_proto (r_proto r)
-  ++ map (MSrcNet false) sn
+  ++ map (m_net Src false) sn
   ++ map (MSrcIpSet false) (r_src_ipsets r)
   ++ (if sp_blk then [] else
-        (match r_src_ports r with [] => [] | ps => [MSrcPorts false ps] end)
-        ++ map (MSrcIpPortSet false) (r_src_named_ports r))
-  ++ map (MDstNet false) dn
+        ports_match Src (r_src_ports r)
+        ++ map (m_ipport_set Src false) (r_src_named_ports r))
+  ++ map (m_net Dst false) dn
   ++ map (MDstIpSet false) (r_dst_ipsets r)
   ++ map (MDstIpPortSet false) (r_dst_ipport_sets r)
   ++ (if dp_blk then [] else
-        (match r_dst_ports r with [] => [] | ps => [MDstPorts false ps] end)
-        ++ map (MDstIpPortSet false) (r_dst_named_ports r))
+        ports_match Dst (r_dst_ports r)
+        ++ map (m_ipport_set Dst false) (r_dst_named_ports r))
   ++ m_opt (r_icmp r) (m_icmp (c_flavor c) false)
   ++ m_opt (r_not_proto r) (fun n => [MProto true n])
-  ++ map (MSrcNet true) nsn
+  ++ map (m_net Src true) nsn
   ++ map (MSrcIpSet true) (r_not_src_ipsets r)
   ++ map (MSrcPorts true) (split_ports (r_not_src_ports r))
   ++ map (MSrcIpPortSet true) (r_not_src_named_ports r)
-  ++ map (MDstNet true) ndn
+  ++ map (m_net Dst true) ndn
   ++ map (MDstIpSet true) (r_not_dst_ipsets r)
   ++ map (MDstPorts true) (split_ports (r_not_dst_ports r))
   ++ map (MDstIpPortSet true) (r_not_dst_named_ports r)
